@@ -86,15 +86,12 @@ func getterParamOK(t types.Type) bool {
 }
 
 // pureIfaceMethod: every implementation of the interface method in the program is a value getter.
-func (w *World) pureIfaceMethod(it types.Type, m *types.Func) bool {
+func (w *World) pureIfaceMethodU(it types.Type, m *types.Func) bool {
 	key := it.String() + "." + m.Name()
-	w.mu.Lock()
-	if v, ok := w.pureMemo[key]; ok {
-		w.mu.Unlock()
-		return v
+		if v, ok := w.pureMemo[key]; ok {
+				return v
 	}
-	w.mu.Unlock()
-	iface, ok := it.Underlying().(*types.Interface)
+		iface, ok := it.Underlying().(*types.Interface)
 	res := ok
 	n := 0
 	if ok {
@@ -129,25 +126,21 @@ func (w *World) pureIfaceMethod(it types.Type, m *types.Func) bool {
 	if n == 0 {
 		res = false
 	}
-	w.mu.Lock()
-	w.pureMemo[key] = res
-	w.mu.Unlock()
-	return res
+		w.pureMemo[key] = res
+		return res
 }
 
 // isReader: the function writes nothing but its own locals and calls only readers; its results are a
 // deterministic function of its arguments and the heap it is called in.
-func (w *World) isReader(f *ssa.Function, depth int) bool {
-	if f == nil || len(f.Blocks) == 0 || depth > 3 {
+func (w *World) isReaderU(f *ssa.Function, depth int) bool {
+	if f == nil || len(f.Blocks) == 0 {
 		return false
 	}
-	w.mu.Lock()
-	if v, ok := w.readerMemo[f]; ok {
-		w.mu.Unlock()
-		return v
+		if v, ok := w.readerMemo[f]; ok {
+				return v
 	}
-	w.mu.Unlock()
-	local := func(v ssa.Value) bool {
+	w.readerMemo[f] = false // cycles: not a reader
+		local := func(v ssa.Value) bool {
 		for {
 			switch x := v.(type) {
 			case *ssa.Alloc:
@@ -182,29 +175,51 @@ func (w *World) isReader(f *ssa.Function, depth int) bool {
 					}
 					continue
 				}
+				if x.Call.IsInvoke() {
+					// interface methods all of whose implementations are readers
+					if nt, ok := x.Call.Value.Type().(*types.Named); ok && nt.Obj().Pkg() != nil && w.mine[nt.Obj().Pkg()] &&
+						(w.declaredPure[nt.Obj().Pkg().Name()+"."+nt.Obj().Name()+"."+x.Call.Method.Name()] || w.pureIfaceMethodU(x.Call.Value.Type(), x.Call.Method) || w.readerIfaceMethodU(x.Call.Value.Type(), x.Call.Method)) {
+						continue
+					}
+					res = false
+					continue
+				}
 				c := x.Call.StaticCallee()
-				if c == nil || !w.isReader(c, depth+1) {
+				if c == nil {
+					res = false
+					continue
+				}
+				if cp := c.Pkg; cp != nil && !w.mine[cp.Pkg] {
+					// dependency functions on plain values are pure
+					ok := true
+					for _, a := range x.Call.Args {
+						if !valueLike(a.Type(), 0) {
+							ok = false
+						}
+					}
+					if !ok {
+						res = false
+					}
+					continue
+				}
+				if !w.isReaderU(c, depth+1) {
 					res = false
 				}
 			}
 		}
 	}
-	w.mu.Lock()
-	w.readerMemo[f] = res
-	w.mu.Unlock()
-	return res
+		w.readerMemo[f] = res
+		return res
 }
 
 // readerIfaceMethod: every implementation of the interface method is a reader.
-func (w *World) readerIfaceMethod(it types.Type, m *types.Func) bool {
+func (w *World) readerIfaceMethodU(it types.Type, m *types.Func) bool {
 	key := "R:" + it.String() + "." + m.Name()
-	w.mu.Lock()
-	if v, ok := w.pureMemo[key]; ok {
-		w.mu.Unlock()
-		return v
+		if v, ok := w.pureMemo[key]; ok {
+				return v
 	}
-	w.mu.Unlock()
-	iface, ok := it.Underlying().(*types.Interface)
+	w.pureMemo[key] = false // cycles: not a reader
+		iface, ok := it.Underlying().(*types.Interface)
 	res := ok
 	n := 0
 	if ok {
@@ -227,7 +242,7 @@ func (w *World) readerIfaceMethod(it types.Type, m *types.Func) bool {
 				continue // wrappers of methods counted at their declaring type
 			}
 			n++
-			if !w.isReader(fn, 0) {
+			if !w.isReaderU(fn, 0) {
 				res = false
 				break
 			}
@@ -236,8 +251,26 @@ func (w *World) readerIfaceMethod(it types.Type, m *types.Func) bool {
 	if n == 0 {
 		res = false
 	}
-	w.mu.Lock()
-	w.pureMemo[key] = res
-	w.mu.Unlock()
-	return res
+		w.pureMemo[key] = res
+		return res
+}
+
+// The purity analyses share memo tables and break cycles by provisional answers, so they run under one
+// lock: their results must not depend on the interleaving of the verification workers.
+func (w *World) isReader(f *ssa.Function, depth int) bool {
+	w.pmu.Lock()
+	defer w.pmu.Unlock()
+	return w.isReaderU(f, depth)
+}
+
+func (w *World) readerIfaceMethod(it types.Type, m *types.Func) bool {
+	w.pmu.Lock()
+	defer w.pmu.Unlock()
+	return w.readerIfaceMethodU(it, m)
+}
+
+func (w *World) pureIfaceMethod(it types.Type, m *types.Func) bool {
+	w.pmu.Lock()
+	defer w.pmu.Unlock()
+	return w.pureIfaceMethodU(it, m)
 }
